@@ -1,17 +1,17 @@
 From Tramp Require Import Model.Base Model.Fee Model.Classify Model.Node Model.Provider Model.ProviderSys Model.Sys.
 From Tramp Require Import Proofs.SysBasics Proofs.SysShape Proofs.SysTheorems Proofs.SysReach Proofs.SysCalls Proofs.SysNode Proofs.SysSafety Props.C05.
 Check C05_pay_only_when_nothing_live : forall c n t0 h0 a0 evs ev cid b am mf md rt,
-  node_ok n -> hist_wf c (sys_start n t0 h0 a0) evs ->
+  node_ok n -> hist_wf false c (sys_start n t0 h0 a0) evs ->
   let s := after c n t0 h0 a0 evs in
   In (OCall cid (QPay b am mf md rt)) (snd (step c s ev)) ->
   all_failed (parts (nd s)) /\ payrun (nd s) = 0.
 Check C05_one_pay_at_a_time : forall c n t0 h0 a0 evs k1 k2 cl1 cl2,
-  node_ok n -> hist_wf c (sys_start n t0 h0 a0) evs ->
+  node_ok n -> hist_wf false c (sys_start n t0 h0 a0) evs ->
   let s := after c n t0 h0 a0 evs in
   nth_error (calls s) k1 = Some cl1 -> nth_error (calls s) k2 = Some cl2 ->
   is_pay (c_rpc cl1) = true -> is_pay (c_rpc cl2) = true -> live (c_st cl1) -> live (c_st cl2) -> k1 = k2.
 Check C05_paid_never_paid_again : forall c n t0 h0 a0 evs evs' ev p cid b am mf md rt,
-  node_ok n -> hist_wf c (sys_start n t0 h0 a0) (evs ++ evs') ->
+  node_ok n -> hist_wf false c (sys_start n t0 h0 a0) (evs ++ evs') ->
   has_done p (parts (nd (after c n t0 h0 a0 evs))) ->
   ~ In (OCall cid (QPay b am mf md rt)) (snd (step c (after c n t0 h0 a0 (evs ++ evs')) ev)).
 Check C05_settled_from_record : forall c li base tnow k pr g,
